@@ -114,7 +114,7 @@ Definition init_sess (sch : schema) : sess :=
    Assertion sites (believed unreachable; a hit during the correspondence run is reported as a broken tie): 20 the database value
    of a loaded attribute changed; 21 an unwritten attribute has a value but no database value; 22 a row appears in a fully loaded
    collection; 23 remove: an item survived reverse_remove; 24 assign: items differ after processing; 25 add: a linked item is
-   missing from the collection. *)
+   missing from the collection; 26 a deleted object is a member of a collection. *)
 
 (* a fresh cache over the database d (rollback, failed commit, new db_session) *)
 Definition reset_sess (d : db) : sess := mkSess [] [] [] [] false false [] d d O false [] false.
@@ -726,29 +726,33 @@ Definition validate_set (s : sess) (t : nat) (v : option arg) : vres (list oid) 
 (* Attribute.__set__(item, newv, undo_funcs) called from the collection side (is_reverse_call): status / wbits, the
    value, removal from the previous owner's collection; the caller maintains the new owner's collection *)
 Definition ref_set_rev (sch : schema) (s : sess) (item : oid) (a : nat) (newv : val) : sess :=
-  let old := obj_val s item a in
-  let s1 := mark_written s item a in
-  if oval_eqb old (Some newv) then s1
-  else
-    let s2 := upd_obj s1 item (fun ob => ob_put_val ob a (Some newv)) in
-    match old, ref_info sch (obj_ent s item) a with
-    | Some (VRef x), Some (_, r) => rev_remove s2 x r item
-    | _, _ => s2
-    end.
+  match ref_info sch (obj_ent s item) a with
+  | None => s                      (* not a reference attribute of the item's entity: excluded by validation *)
+  | Some (_, r) =>
+    let old := obj_val s item a in
+    let s1 := mark_written s item a in
+    if oval_eqb old (Some newv) then s1
+    else
+      let s2 := upd_obj s1 item (fun ob => ob_put_val ob a (Some newv)) in
+      match old with
+      | Some (VRef x) => rev_remove s2 x r item
+      | _ => s2
+      end
+  end.
 
 (* Attribute.__set__(obj, newv) for a reference attribute, called by the program: both ends *)
 Definition ref_set_direct (sch : schema) (s : sess) (o : oid) (a : nat) (newv : val) : sess :=
-  let old := obj_val s o a in
-  let s1 := mark_written s o a in
-  if oval_eqb old (Some newv) then s1
-  else
-    let s2 := upd_obj s1 o (fun ob => ob_put_val ob a (Some newv)) in
-    match ref_info sch (obj_ent s o) a with
-    | Some (_, r) =>
+  match ref_info sch (obj_ent s o) a with
+  | None => s
+  | Some (_, r) =>
+    let old := obj_val s o a in
+    let s1 := mark_written s o a in
+    if oval_eqb old (Some newv) then s1
+    else
+      let s2 := upd_obj s1 o (fun ob => ob_put_val ob a (Some newv)) in
       let s3 := match old with Some (VRef x) => rev_remove s2 x r o | _ => s2 end in
       match newv with VRef y => rev_add s3 y r o | _ => s3 end
-    | None => s2
-    end.
+  end.
 
 (* ------------------------------------------------------------------------------------------------ collections *)
 
@@ -773,7 +777,10 @@ Definition sd_add_item (s : sess) (o : oid) (a : nat) (item : oid) : sess :=
     | None => ob_put_set ob a (Some (mkSd [item] [] [] false None))
     end).
 Definition item_link (sch : schema) (s : sess) (o : oid) (a r : nat) (item : oid) : sess :=
-  sd_add_item (ref_set_rev sch s item r (VRef o)) o a item.
+  match ref_info sch (obj_ent s item) r with
+  | Some (_, a') => if Nat.eqb a' a then sd_add_item (ref_set_rev sch s item r (VRef o)) o a item else s
+  | None => s                      (* the item's attribute r is not the reverse of o.a: excluded by validation *)
+  end.
 
 (* Set.load(obj, items) for one-to-many, without flushing *)
 Definition coll_load_items (sch : schema) (s : sess) (o : oid) (a : nat) (items : list oid) : out unit :=
@@ -783,9 +790,10 @@ Definition coll_load_items (sch : schema) (s : sess) (o : oid) (a : nat) (items 
     match set_info sch (obj_ent s0 o) a with
     | Some (t, r) =>
       let unl := filter (fun i => match obj_val s0 i r with None => true | Some _ => false end) items in
-      match unl with
-      | [] => Ok s0 tt
-      | _ =>
+      match items, unl with
+      | [], _ => coll_load_noflush sch s0 o a        (* `if items:` is false for an empty set: the full load follows *)
+      | _, [] => Ok s0 tt
+      | _, _ =>
         match sd_items (get_sd s0 o a) with
         | [] =>
           let pks := flat_map (fun i => match obj_pk s0 i with Some z => [z] | None => [] end) unl in
@@ -890,11 +898,13 @@ Definition coll_assign_gen (del : sess -> oid -> out unit) (sch : schema) (s : s
         match set_info sch (obj_ent s1 o) a with
         | Some (_, r_) =>
           let s1' := note_order (note_order s1 to_remove) to_add in
+          if negb (set_cascade sch (obj_ent s1 o) a) && any_del s1 to_remove then Err (mark_dirty s1 26) EDeleted else
           let r2 := if set_cascade sch (obj_ent s1 o) a then fold_out del s1' to_remove
                     else Ok (fold_left (fun acc i => ref_set_rev sch acc i r_ VNone) to_remove s1') tt in
           match r2 with
           | Err s2 er => Err s2 er
           | Ok s2 _ =>
+            if any_del s2 to_add then Err (mark_dirty s2 26) EDeleted else
             let s3 := fold_left (fun acc i => item_link sch acc o a r_ i) to_add s2 in
             let sd := get_sd s3 o a in
             if negb (seteq_nat (sd_items sd) items) then Err (mark_dirty s3 24) EAssertion
@@ -929,6 +939,7 @@ Definition coll_remove_gen (del : sess -> oid -> out unit) (sch : schema) (s : s
       match set_info sch (obj_ent s1 o) a with
       | Some (_, r_) =>
         let s1' := note_order s1 items1 in
+        if negb (set_cascade sch (obj_ent s1 o) a) && any_del s1 items1 then Err (mark_dirty s1 26) EDeleted else
         let r2 := if set_cascade sch (obj_ent s1 o) a then fold_out del s1' items1
                   else Ok (fold_left (fun acc i => ref_set_rev sch acc i r_ VNone) items1 s1') tt in
         match r2 with
